@@ -1,5 +1,5 @@
 (* C07 — a killed xvc command never corrupts the repository or loses data.
-   Property theorems only: statement, [exact] of a lemma of Crash/Proofs.v / Crash/EffectsOk.v, [Check]
+   Property theorems only: statement, [exact] of a lemma of Crash/Proofs.v / Crash/EffectsOk.v / Crash/Converge.v, [Check]
    pins, [Example]s (non-vacuity, *_refuted witnesses by vm_compute), [Print Assumptions].
 
    Model: Crash/Model.v.  A command is the list of atomic file-system effects the code issues in
@@ -8,7 +8,7 @@
    repo-patches/58-fix-P22-atomic-event-file.  [run_items fixed chunk h] is the file system reached by
    the history h of user writes / deletes and completed commands from `xvc init`. *)
 From Coq Require Import List Bool NArith Lia.
-From XV Require Import Base.Amap Base.Bytes Crash.Model Crash.Proofs Crash.EffectsOk.
+From XV Require Import Base.Amap Base.Bytes Crash.Model Crash.Proofs Crash.EffectsOk Crash.Converge.
 Import ListNotations.
 
 (* 1. crash_prefix_safe (core).  For EVERY reachable file system, EVERY command of the modelled set
@@ -53,18 +53,22 @@ Theorem disciplined_effects_safe strict f l n :
      obj_holds f' b = true \/ exists q w' s', fget f' (LWs q) = Some (NData b w' s')).
 Proof. exact (disciplined_prefix_safe strict f l n). Qed.
 
-(* 4. store_saves_prefix_consistent (partial): a command that only saves stores (pipeline new /
-      step new / ...), with the fix: at every prefix the repository loads and nothing in the cache
-      or the workspace changes.  NOT proved in general: that each store is either entirely the old
-      or entirely the new one (checked on the instance [stores_old_or_new_example] below). *)
-Theorem store_saves_prefix_consistent_partial chunk (h : list item) saves ec (n : nat) :
+(* 4. store_saves_prefix_consistent: a command that only saves stores (pipeline new / step new / ...),
+      each store saved once, with the fix: at EVERY prefix the repository loads, every store directory
+      (the files the sorted listing shows; temporary files are not listed) is either entirely the old one
+      or entirely the one of the completed command, the same for the entity counter directory, and nothing
+      outside the store / counter directories changes (cache and workspace are untouched). *)
+Theorem store_saves_prefix_consistent chunk (h : list item) saves ec (n : nat) :
+  NoDup (map fst saves) ->
   let f := run_items true chunk h in
-  let f' := crashed n (effects true chunk f (StoresOnly saves ec)) f in
+  let c := StoresOnly saves ec in
+  let f' := crashed n (effects true chunk f c) f in
+  let F := run_cmd true chunk f c in
   loads f' = true /\
-  (forall v, obj_holds f v = true -> obj_holds f' v = true) /\
-  (forall p b w s, fget f (LWs p) = Some (NData b w s) ->
-     obj_holds f' b = true \/ exists q w' s', fget f' (LWs q) = Some (NData b w' s')).
-Proof. exact (store_saves_prefix_lemma chunk h saves ec n). Qed.
+  (forall s, store_dir f' s = store_dir f s \/ store_dir f' s = store_dir F s) /\
+  (ec_dir f' = ec_dir f \/ ec_dir f' = ec_dir F) /\
+  (forall x, is_meta_loc x = false -> fget f' x = fget f x).
+Proof. exact (store_saves_prefix_consistent_lemma chunk h saves ec n). Qed.
 
 (* 5. every reachable file system is well formed, and with the fix it loads *)
 Theorem reachable_wf fixed chunk (h : list item) :
@@ -73,6 +77,37 @@ Proof. exact (reachable_wf_lemma fixed chunk h). Qed.
 
 Theorem reachable_loads chunk (h : list item) : loads (run_items true chunk h) = true.
 Proof. exact (run_items_loads chunk h). Qed.
+
+(* 6. crash_rerun_converges, for recheck: for EVERY reachable file system, `xvc file recheck` with every
+      option (--recheck-method, --force, any targets), EVERY crash point n outside the class
+      K_crash_during_workspace_copy (the other three classes are not needed: recheck moves nothing into
+      the cache and saves one store), with the fix of P22 and a copy chunk size > 0 (2^30 in std::fs::copy):
+      re-running the interrupted command and then `xvc file recheck` over ANY path list [obs] leaves, for
+      every observed path, the same workspace view (content, write bit, link target), the same recorded
+      version and method, the same restorable version and the same object permissions as the
+      uninterrupted run followed by the same recheck. *)
+Theorem crash_rerun_converges_recheck chunk (h : list item) m force ps obs (n : nat) :
+  chunk <> 0%N ->
+  let f := run_items true chunk h in
+  let c := Recheck m force ps in
+  K_crash_during_workspace_copy n (effects true chunk f c) = false ->
+  converges_at true chunk f c obs n = true.
+Proof. exact (crash_rerun_converges_recheck_lemma chunk h m force ps obs n). Qed.
+
+(* 7. crash_rerun_converges (partial): over ALL commands of the modelled set, what is proved:
+      recheck at every crash point outside K_crash_during_workspace_copy (theorem 6); track, carry-in and
+      the store-only commands only at the crash point before the first effect.
+      MISSING: track and carry-in at the other crash points.  The statement "outside the four classes"
+      is REFUTED for them (C07_rerun_outside_classes_refuted below: when the bytes to commit are already
+      in the cache no rename happens, so K_crash_between_records_and_content does not fire although the
+      order of effects is P23's); it holds on the swept instances with the widened class
+      K_crash_between_records_and_replacement (sweeps_wide_hold), and is not proved in general. *)
+Theorem crash_rerun_converges_partial chunk (h : list item) (c : command) obs (n : nat) :
+  chunk <> 0%N ->
+  let f := run_items true chunk h in
+  rerun_proved c n (effects true chunk f c) = true ->
+  converges_at true chunk f c obs n = true.
+Proof. exact (crash_rerun_converges_partial_lemma chunk h c obs n). Qed.
 
 (* ---- the statements are pinned --------------------------------------------------------------------- *)
 Check crash_prefix_safe :
@@ -92,6 +127,24 @@ Check crash_prefix_keeps_cache :
   (fixed = true -> loads f' = true) /\
   (forall v, obj_holds f v = true -> obj_holds f' v = true) /\
   objects_intact f' = true.
+Check crash_rerun_converges_recheck :
+  forall chunk (h : list item) m force ps obs (n : nat),
+  chunk <> 0%N ->
+  let f := run_items true chunk h in
+  let c := Recheck m force ps in
+  K_crash_during_workspace_copy n (effects true chunk f c) = false ->
+  converges_at true chunk f c obs n = true.
+Check store_saves_prefix_consistent :
+  forall chunk (h : list item) saves ec (n : nat),
+  NoDup (map fst saves) ->
+  let f := run_items true chunk h in
+  let c := StoresOnly saves ec in
+  let f' := crashed n (effects true chunk f c) f in
+  let F := run_cmd true chunk f c in
+  loads f' = true /\
+  (forall s, store_dir f' s = store_dir f s \/ store_dir f' s = store_dir F s) /\
+  (ec_dir f' = ec_dir f \/ ec_dir f' = ec_dir F) /\
+  (forall x, is_meta_loc x = false -> fget f' x = fget f x).
 
 (* ---- full statements the faithful model refutes, with their witnesses ------------------------------- *)
 Open Scope N.
@@ -191,6 +244,51 @@ Example object_left_writable_refuted :
             obs_ws (run_cmd true big f c) 1 = OFile [97;10] false.
 Proof. exists 21%nat. vm_compute. repeat split. Qed.
 
+(* re-running OUTSIDE the four classes, for every command of the modelled set: refuted for carry-in and
+   track when the bytes to commit are already in the cache (they equal an older version or another
+   file): move_to_cache is skipped, no rename into the cache happens, the class
+   K_crash_between_records_and_content (defined by that rename) does not fire, but the order of effects
+   is the same as in P23 *)
+Definition C07_rerun_outside_classes : Prop :=
+  forall chunk h c ps n, chunk <> 0 ->
+  let f := run_items true chunk h in let l := effects true chunk f c in
+  K_crash_between_records_and_content n l = false -> K_crash_during_workspace_copy n l = false ->
+  K_partial_record_set n l = false -> K_object_left_writable n l = false ->
+  converges_at true chunk f c ps n = true.
+
+(* carry-in: file 1 is edited to the bytes of file 2 (in the cache).  Kill after the unlink of the
+   workspace file and before the records are saved: the re-run sees a missing file and stops, recheck
+   restores the OLD version; the new bytes survive in the cache only because file 2 has them *)
+Definition cached1 : list item := [UWrite 1 [97;10]; UWrite 2 [98;10]; Xvc (Track None [1;2]); UWrite 1 [98;10]].
+Example carry_in_cached_content_refuted :
+  let f := run_items true big cached1 in let c := CarryIn [1] in let l := effects true big f c in
+  nth_error l 0 = Some (Unlink (LWs 1)) /\
+  K_any 1 l = false /\ converges_at true big f c [1;2] 1 = false /\
+  K_crash_between_records_and_replacement 1 l = true /\
+  let g := rerun true big c [1;2] (crashed 1 l f) in
+  obs_ws g 1 = OFile [97;10] true /\ rec_digest g 1 = Some [97;10] /\
+  rec_digest (run_cmd true big f c) 1 = Some [98;10].
+Proof. vm_compute. repeat split. Qed.
+Theorem C07_rerun_outside_classes_refuted : ~ C07_rerun_outside_classes.
+Proof.
+  intros H. specialize (H big cached1 (CarryIn [1]) [1;2] 1%nat).
+  assert (E : big <> 0) by discriminate. specialize (H E).
+  vm_compute in H. specialize (H eq_refl eq_refl eq_refl eq_refl). discriminate.
+Qed.
+
+(* track --recheck-method hardlink: the edited file 1 holds cached bytes.  Kill after the five record saves and
+   before the workspace file is replaced: the re-run skips the path (metadata unchanged), recheck finds
+   nothing missing, the file stays a regular writable file; the uninterrupted run leaves a hard link *)
+Example track_cached_content_refuted :
+  let f := run_items true big [UWrite 1 [97;10]; UWrite 2 [98;10]; Xvc (Track (Some MHardlink) [1;2]); UWrite 1 [98;10]] in
+  let c := Track (Some MHardlink) [1] in let l := effects true big f c in
+  exists n, nth_error l n = Some (Unlink (LWs 1)) /\
+            K_any n l = false /\ converges_at true big f c [1;2] n = false /\
+            K_crash_between_records_and_replacement n l = true /\
+            obs_ws (rerun true big c [1;2] (crashed n l f)) 1 = OFile [98;10] true /\
+            obs_ws (run_cmd true big f c) 1 = OFile [98;10] false.
+Proof. exists 6%nat. vm_compute. repeat split. Qed.
+
 (* the C03 boundary of clause (c): `recheck --force` over an edited, uncommitted file loses its bytes
    (also without any kill); this is why crash_prefix_safe asks for cmd_pre *)
 Example recheck_force_uncommitted_refuted :
@@ -203,7 +301,8 @@ Proof. vm_compute. repeat split. Qed.
 (* ---- non-vacuity and bounded sweeps ------------------------------------------------------------------ *)
 (* the hypotheses of crash_prefix_safe are met by non-trivial states, and the executable twins of the
    clauses hold at EVERY crash point of these commands; outside the four known classes the crashed
-   repository loads and re-running converges (bounded check: these instances only) *)
+   repository loads and re-running converges (for recheck this is crash_rerun_converges_recheck; for
+   track and carry-in a bounded check of these instances only, in which no content is already cached) *)
 Definition sweep fx (f : fsys) (c : command) (ps : list path) : bool :=
   let l := effects fx big f c in
   forallb (fun n =>
@@ -231,6 +330,36 @@ Example sweeps_hold :
         (Recheck None false [1]) [1] = true.
 Proof. vm_compute. repeat split. Qed.
 
+(* with the widened P23 class also the instances with already-cached content converge (bounded check) *)
+Definition sweep_wide (f : fsys) (c : command) (ps : list path) : bool :=
+  let l := effects true big f c in
+  forallb (fun n => K_any n l || K_crash_between_records_and_replacement n l || converges_at true big f c ps n)
+          (seq 0 (S (length l))).
+Definition cached_hist m : list item :=
+  [UWrite 1 [97;10]; UWrite 2 [98;10]; UWrite 3 [99;10]; Xvc (Track (Some m) [1;2;3]);
+   UWrite 1 [98;10]; UWrite 2 [100;10]; UWrite 4 [97;10]].
+Example sweeps_wide_hold :
+  forallb (fun m => sweep_wide (run_items true big (cached_hist m)) (CarryIn [1;2;3]) [1;2;3;4]
+                    && sweep_wide (run_items true big (cached_hist m)) (Track None [1;4]) [1;2;3;4]
+                    && sweep_wide (run_items true big (cached_hist m)) (Track (Some MSymlink) [4;1;2]) [1;2;3;4])
+          [MCopy; MHardlink; MSymlink] = true.
+Proof. vm_compute. reflexivity. Qed.
+
+(* the hypotheses of crash_rerun_converges_recheck are met in the middle of a run: file 1 was deleted,
+   file 2 is a copy; recheck as symlink is killed after it removed file 2 and before it links it *)
+Example crash_rerun_converges_recheck_met :
+  let f := run_items true big [UWrite 1 [97;10]; UWrite 2 [98;10]; Xvc (Track None [1;2]); UDelete 1] in
+  let c := Recheck (Some MSymlink) false [1;2] in let l := effects true big f c in
+  big <> 0 /\ length l = 6%nat /\ nth_error l 2 = Some (Symlink [98;10] (LWs 2)) /\
+  K_crash_during_workspace_copy 2 l = false /\
+  obs_ws f 2 = OFile [98;10] true /\ obs_ws (crashed 2 l f) 2 = ONone /\ obs_ws (run_cmd true big f c) 2 = OLink [98;10] /\
+  converges_at true big f c [1;2] 2 = true /\
+  (* and the excluded class is not empty: a copy killed between two chunks *)
+  let f2 := run_items true 2 [UWrite 1 [97;98;99;100;10]; Xvc (Track None [1]); UDelete 1] in
+  let l2 := effects true 2 f2 (Recheck None false [1]) in
+  K_crash_during_workspace_copy 3 l2 = true /\ converges_at true 2 f2 (Recheck None false [1]) [1] 3 = false.
+Proof. vm_compute. repeat split; discriminate. Qed.
+
 Example cmd_pre_met :
   cmd_pre true (run_items true big [UWrite 1 [97;10]; UWrite 2 [98;10]; Xvc (Track None [1;2]); UDelete 1])
           (Recheck (Some MSymlink) true [1;2]).
@@ -251,12 +380,26 @@ Example stores_old_or_new_example :
              [SOther 1; SOther 2; SPath; SDigest]) (seq 0 (S (length l))) = true
   /\ length l = 9%nat.
 Proof. vm_compute. split; reflexivity. Qed.
+Example store_saves_hypothesis_met :
+  NoDup (map fst [(SOther 1, [{| ev_p := 9; ev_v := VOther 1 |}]); (SOther 2, [{| ev_p := 9; ev_v := VOther 2 |}])]).
+Proof. cbn. repeat constructor; cbn; intuition discriminate. Qed.
+(* and the hypothesis is needed: a store saved twice by one command passes through a third state *)
+Example store_saved_twice_refuted :
+  let f := repo3 true in
+  let c := StoresOnly [(SOther 1, [{| ev_p := 9; ev_v := VOther 1 |}]); (SOther 1, [{| ev_p := 9; ev_v := VOther 2 |}])] None in
+  let g := crashed 3 (effects true big f c) f in
+  length (store_events f (SOther 1)) = 0%nat /\ length (store_events g (SOther 1)) = 1%nat /\
+  length (store_events (run_cmd true big f c) (SOther 1)) = 2%nat.
+Proof. vm_compute. repeat split. Qed.
 
 Print Assumptions crash_prefix_safe.
 Print Assumptions crash_prefix_keeps_cache.
 Print Assumptions disciplined_effects_safe.
-Print Assumptions store_saves_prefix_consistent_partial.
+Print Assumptions store_saves_prefix_consistent.
+Print Assumptions crash_rerun_converges_recheck.
+Print Assumptions crash_rerun_converges_partial.
 Print Assumptions reachable_wf.
 Print Assumptions reachable_loads.
 Print Assumptions C07_loads_full_refuted.
 Print Assumptions C07_rerun_full_refuted.
+Print Assumptions C07_rerun_outside_classes_refuted.
